@@ -64,7 +64,7 @@ def main():
                 bad += 1
         finally:
             shutil.rmtree(tmp, ignore_errors=True)
-            sh("rm -f /tmp/pongo2_*")
+            pass
     print(f"selftest: {ok} caught, {bad} not")
     sys.exit(0 if bad == 0 else 1)
 
